@@ -113,7 +113,7 @@ def check_circuit(case):
     n = case["n"]
     ops = [(o[0], tuple(o[1])) for o in case["ops"]]
     fails = []
-    qc = libif.build_circuit(n, ops)
+    qc = libif.build_circuit(n, ops, case.get("registers"))
     try:
         st = L.Stabilizer(qc)
         strs = list(st.to_list())
@@ -162,7 +162,8 @@ def classify(case):
         return (("g", n, gid) if (gid and rev != gid) else None), {"kind": "graph", "graph_n": n}
     ops = case["ops"]
     two = any(len(o[1]) == 2 for o in ops)
-    return (("c", case["n"], tuple((o[0], tuple(o[1])) for o in ops)) if two else None), {"kind": "circuit", "circuit_n": case["n"]}
+    return (("c", case["n"], tuple((o[0], tuple(o[1])) for o in ops), tuple(case.get("registers", ()))) if two else None), \
+        {"kind": "circuit", "circuit_n": case["n"], "circuit_registers": len(case.get("registers", [1]))}
 
 
 def strategy():
@@ -193,7 +194,11 @@ def strategy():
     @st.composite
     def circ_cases(draw):
         n = draw(st.sampled_from([2, 3, 4, 5, 6]))
-        return {"kind": "circuit", "n": n, "ops": draw(hyp.clifford_ops(n, max_len=60))}
+        case = {"kind": "circuit", "n": n, "ops": draw(hyp.clifford_ops(n, max_len=60))}
+        if draw(st.integers(0, 2)) == 0:      # the same circuit spread over several quantum registers
+            cuts = sorted(set(draw(st.lists(st.integers(1, n - 1), min_size=1, max_size=2))))
+            case["registers"] = [b - a for a, b in zip([0] + cuts, cuts + [n])]
+        return case
     return st.one_of(string_cases(), string_cases(), circ_cases(), graph_cases())
 
 
